@@ -12,6 +12,13 @@ COMMON_NOTE = (
 )
 
 CHECKS = {
+    "C14": dict(
+        technique="preemption-bounded stateless DFS over thread interleavings of real concurrent connection handlers under a cooperative (baton) scheduler with sys.settrace line-level scheduling points; exhaustive enumeration of completion orders x reaping points on real forking/threading servers",
+        text="All unordered pairs (thorough: also triples) of a 10-request menu chosen to collide run concurrently through the real connection handler, from a cold start (lazily initialised module tables reset) and warm, "
+             "under every interleaving with <=2 (quick) / <=3 (thorough) preemptions; scheduling points at every cache-file stat/open/read/write-chunk/close, directory enumeration, and every traced line of the lazy initialisers, the block copy loop and the HTTP header cache. "
+             "Each client must receive exactly its sequential answer. A real ForkingTCPServer and ThreadingTCPServer with three clients are driven through all 6 completion orders x service_actions() positions: answers, listener liveness and an empty child table are asserted.",
+        design_ref="DESIGN.md 3/C14",
+    ),
     "C09": dict(
         technique="bounded-exhaustive enumeration of gophermap files (all line sequences up to length 3 over 16 line shapes x terminators x placements) rendered by the implementation, against a reference reading of the manual and a cross-protocol differential",
         text="Every gophermap of <=3 lines over 16 line shapes (info text, blank, 1-4 fields, empty selector or trailing empty fields, absolute/relative/URL: selectors, remote hosts, explicit info type, search) with LF/CRLF/unterminated endings, placed in the root, at depth 1 and 2 and as a *.gophermap file, "
